@@ -19,6 +19,13 @@ arbitrary finite number of lines into `conn.out` and block while it is full.
   abstraction with the flag write as the linearisation point: between it and the unlock the connecting thread
   touches nothing another thread can see (`conn.ctx` is read under `mu` only), threads waiting for `mu` are merely
   scheduled later, and the new goroutines' steps come after.
+* The peer may stop reading at any time (`stalled`): a socket write in progress then does not return until the socket
+  is closed or the peer resumes. `recv` may equally sit in a read for ever and `runLoop` in a handler that waits for
+  room in `conn.out`; none of the three is then looking at `ctx.Done()`. That is why `postConnect` also starts a
+  watchdog goroutine (fix 9105b13) that waits for the context only and calls `closeFor(ctx)`: `watch` says it has not
+  fired yet. It is not in the wait group; one that is still waiting when its connection is torn down by somebody else
+  fires later (every teardown cancels the context) as a straggler of an old generation - `stale` lets any idle thread
+  become such a straggler at any time, which over-approximates exactly that.
 * Ghost: `log`, the observable history with generation numbers.
 -/
 namespace Go.Life
@@ -49,6 +56,8 @@ structure G where
   sockClosed : Bool := false     -- sock.Close() has been called
   eof : Bool := false            -- the server closed its side / a read error is pending
   werr : Bool := false           -- writes fail from now on
+  stalled : Bool := false        -- the peer has stopped reading: a write in progress does not return
+  watch : Bool := false          -- this generation's watchdog goroutine is still waiting for ctx.Done()
   avail : Nat := 0               -- lines the reader can still deliver to recv
   inQ : Nat := 0                 -- len(conn.in)
   outQ : Nat := 0                -- len(conn.out)
@@ -105,7 +114,9 @@ inductive Label
   | xFinish (t : Tid)
   | xFire (t : Tid)
   -- environment
-  | srvSend | srvEOF | writeErr | ctxCancel
+  | srvSend | srvEOF | writeErr | ctxCancel | peerStall | peerResume
+  -- the watchdog of the current generation, and stragglers (watchdogs included) of older ones
+  | watchFire (t : Tid) | stale (t : Tid) (g : Gen)
   -- recv goroutine
   | recvTake | recvDrop | recvPut | recvExit (t : Tid)
   -- runLoop goroutine and the handler it runs
@@ -126,7 +137,7 @@ def step (s : St) : Label → Option St
     if s.thr t = .cLocked ∧ s.connected = false then
       some { s with
         mu := none, connected := true, cur := s.cur + 1,
-        g := { recv := .reading, send := .idle, loop := .select,
+        g := { recv := .reading, send := .idle, loop := .select, watch := true,
                ping := (match ping with | some f => .idle f | none => .absent),
                wg := (match ping with | some _ => 4 | none => 3) },
         thr := setThr s t (.cRegister (s.cur + 1)) }
@@ -173,6 +184,14 @@ def step (s : St) : Label → Option St
   | .srvEOF => some { s with g := { s.g with eof := true } }
   | .writeErr => some { s with g := { s.g with werr := true } }
   | .ctxCancel => some { s with g := { s.g with cancelled := true } }
+  | .peerStall => some { s with g := { s.g with stalled := true } }
+  | .peerResume => some { s with g := { s.g with stalled := false } }
+  | .watchFire t =>
+    if s.g.watch = true ∧ s.g.cancelled = true ∧ s.thr t = .idle then
+      some { s with g := { s.g with watch := false }, thr := setThr s t (.xWant (some s.cur)) }
+    else none
+  | .stale t g =>
+    if g < s.cur ∧ s.thr t = .idle then some { s with thr := setThr s t (.xWant (some g)) } else none
   | .recvTake =>
     if s.g.recv = .reading ∧ s.g.avail > 0 then some { s with g := { s.g with avail := s.g.avail - 1, recv := .holding } } else none
   | .recvDrop =>
@@ -204,7 +223,7 @@ def step (s : St) : Label → Option St
   | .sendTake =>
     if s.g.send = .idle ∧ s.g.outQ > 0 then some { s with g := { s.g with outQ := s.g.outQ - 1, send := .writing } } else none
   | .sendWrote =>
-    if s.g.send = .writing ∧ s.g.sockClosed = false ∧ s.g.werr = false then some { s with g := { s.g with send := .idle } } else none
+    if s.g.send = .writing ∧ s.g.sockClosed = false ∧ s.g.werr = false ∧ s.g.stalled = false then some { s with g := { s.g with send := .idle } } else none
   | .sendFail t =>
     if s.g.send = .writing ∧ (s.g.sockClosed = true ∨ s.g.werr = true) ∧ s.thr t = .idle then
       some { s with g := { s.g with send := .gone, wg := s.g.wg - 1 }, thr := setThr s t (.xWant (some s.cur)) }
